@@ -72,7 +72,11 @@ def mk(rng, gid, shape_toks, ns_toks, we_toks, range_toks, rows, dtype, as_path,
     text = render(rng, gid, shape_toks, ns_toks, we_toks, range_toks, rows, wrap)
     # what loadtxt will see: one row per non-empty body line
     body_lines = [ln.split() for ln in text.split("\n")[5:] if ln.strip()]
-    body = [[float(np.dtype(dtype).type(t)) for t in ln] for ln in body_lines]
+    def as_read(t):
+        v = float(np.dtype(dtype).type(t))
+        return float(t) if math.isinf(v) and not math.isinf(float(t)) else v       # a finite number beyond the type's range reads as +-inf; the model gets the number itself (same side of the sentinel)
+    with np.errstate(over="ignore"):
+        body = [[as_read(t) for t in ln] for ln in body_lines]
     blank = float(np.dtype(dtype).type(BLANK64))
     op = (f"surfer {gid} [ {' '.join(tok_enc(t) for t in shape_toks)} ] [ {' '.join(tok_enc(t) for t in ns_toks)} ] "
           f"[ {' '.join(tok_enc(t) for t in we_toks)} ] [ {' '.join(tok_enc(t) for t in range_toks)} ] {C.enc(body)} {C.enc(bool(as_path))} {C.enc(blank)}")
@@ -85,7 +89,7 @@ def rand_grid(rng):
     rows = [[rng.choice([rng.randint(-500, 500) / 8.0 * mag, round(rng.uniform(-1, 1) * mag, 6), 0.0, 7.5 * mag]) for _ in range(nx)] for _ in range(ny)]
     if rng.random() < 0.3:
         for _ in range(rng.randint(1, 3)):
-            rows[rng.randrange(ny)][rng.randrange(nx)] = rng.choice([1.70141e38, 1.70141e38, 1.7014117e38, 3e38])
+            rows[rng.randrange(ny)][rng.randrange(nx)] = rng.choice([1.70141e38, 1.70141e38, 1.7014117e38, 3e38, 1e39, 1e300])      # (the last two: beyond float32 - still blanks)
     if rng.random() < 0.1:
         rows[0][0] = rng.choice([1.70140e38, 1.701409e38])      # just below the threshold: a legitimate value
     if rng.random() < 0.12:
@@ -117,6 +121,8 @@ def corpus():
           mk(rng, rows=[[1.0, -3e38, 3.0], [4.0, 5.0, 6.5]], dtype="float32", as_path=False, kind="corpus-negative-sentinel-magnitude",
              **dict(base, range_toks=["-3e38", "6.5"])),
           mk(rng, rows=[[1.0, -3e38, 3.0], [4.0, 5.0, 6.5]], dtype="float64", as_path=True, kind="bad-range-omits-large-negative", **base),
+          mk(rng, rows=[[1.0, 2.0, 1e39], [4.0, 5.0, 6.5]], dtype="float32", as_path=True, kind="corpus-blank-beyond-float32", **base),
+          mk(rng, rows=[[1.0, 1e39, 3.0], [1e300, 5.0, 6.5]], dtype="float64", as_path=False, kind="corpus-blank-beyond-float32", **base),
           mk(rng, rows=rows, dtype="float64", as_path=True, kind="bad-shape-swapped", **dict(base, shape_toks=["3", "2"])),
           mk(rng, rows=rows, dtype="float64", as_path=True, kind="bad-range", **dict(base, range_toks=["1", "6"])),
           mk(rng, rows=rows, dtype="float64", as_path=True, kind="bad-token", **dict(base, ns_toks=["0", "x"])),
